@@ -10,6 +10,37 @@ CLAIMS = {
           "Known finding F1 (unique names validated leniently) is keyed and tolerated; any other disagreement is a violation.",
  },
 }
+CLAIMS["C01"] = {
+  "text": "Bounded model checking of the parser's attacker-facing kernels. (a) _dbus_header_have_message_untrusted on 16 arbitrary bytes with arbitrary limit and "
+          "available length (full 32-bit width, no size bound): verdict and lengths equal the specification's framing arithmetic, no overflow. (b) "
+          "_dbus_validate_body_with_reason for each signature of a stated family, every body up to N bytes in both byte orders: memory-safe, no dbus assertion, "
+          "terminates, and VALID exactly when an independent spec-derived decoder accepts.",
+  "note": "Per-signature jobs (shape concrete, bytes symbolic); N = 8..16 per signature as listed in evidence. Not covered: bodies longer than N, signatures "
+          "outside the family, header-field rules (C01.d not built), value read-back through DBusTypeReader. Found and fixed: F5 (CVE-2022-42011). "
+          "Trusted: ref/ref_marshal.h, LIFO model of DBusList inside the signature validator, one documented CBMC pointer-difference artifact excluded.",
+}
+CLAIMS["C04"] = {
+  "text": "One-step refinement check of the real bus/services.c against a reference state machine transcribed from the specification's RequestName / ReleaseName "
+          "text: from every invariant-satisfying owner queue of length 0..3 (contents symbolic), for every requester, every 32-bit flags word, every limit and policy answer, "
+          "the reply code, resulting queue (order and per-entry flags), the NameOwnerChanged/NameLost/NameAcquired multiset, owned-name counters and accessor results equal "
+          "the reference. Induction over the asserted invariant extends this to histories of any length within the queue-size bound.",
+  "note": "Stubs: driver signal senders (ghost log), transaction hooks (commit = free), 2-slot hash model, symbolic policy/limit. Known finding F3 (REPLACE_EXISTING waiter "
+          "jumps the queue) is keyed and tolerated. Not covered: ListNames, signals-before-reply ordering (transaction FIFO), queues longer than 3.",
+}
+CLAIMS["C06"] = {
+  "text": "The real evaluators in bus/policy.c (check_can_send / check_can_receive / check_can_own, create_client_policy) symbolically executed over rule lists of "
+          "length 0..3 whose every attribute is a solver variable and a symbolic message; decision and matching-rule count equal a fold written from dbus-daemon(1) "
+          "(last match wins, default deny, per-attribute semantics); context order default, group, user, console, mandatory.",
+  "note": "Strings <=2-3 bytes (enough for equal / dot-prefix / different), fd ranges full width. Registry ownership questions answered by symbolic booleans shared with the "
+          "reference. Not covered: XML parsing of rules, SELinux/AppArmor, bus_context_check_security_policy gate (C06.f not built), denial => no delivery (dispatch).",
+}
+CLAIMS["C07"] = {
+  "text": "match_rule_matches, match_rule_equal / remove_rule_by_value and bus_matchmaker_disconnected from the real bus/signals.c: for a rule with all 9 flag bits and every "
+          "attribute symbolic against a symbolic message (header record + argument cursor), the match verdict equals a reference transcribed from the specification's "
+          "Match Rules table, with CBMC pointer/bounds checks on; RemoveMatch removes exactly the most recent equal rule or reports MatchRuleNotFound; disconnect drops exactly the owner's rules.",
+  "note": "Strings <=3 bytes (paths <=4), <=2 argument slots. Found and fixed: F2 (argNpath empty-string under-read). Not covered: rule text grammar (C07.c not built), "
+          "recipient de-duplication across pools (C07.b not built), per-interface hash pools (R7).",
+}
 NOT_APPLICABLE = {f"C{n:02d}": PENDING for n in range(1, 21)}
 NOTES = ("All checks are solver-based (CBMC) over the real sources; see DESIGN.md. Exit 0 = all obligations UNSAT inside the stated bounds; "
          "exit 1 = counterexample (VIOLATION line when the native replay reproduces it); exit 2 = check broken on this tree.")
